@@ -1,8 +1,8 @@
 ----------------------------- MODULE FF_Eq -----------------------------
-(* quick instance E (C14): trees on 1..4 residues + all connected graphs on 3, names over {A, B}, 2 size combinations x 6 distance pairs x 3 link sets *)
+(* quick instance E (C14): all connected graphs on 1..3 residues, chain + two branched trees on 4, names over {A, B}, 2 size combinations x 6 distance pairs x 3 link sets *)
 EXTENDS FFExport
 MCFFs == FFsE({<<2, 3, 1, 2>>, <<3, 1, 3, 1>>}, {<<1, 3>>, <<0, 2>>, <<2, 2>>, <<4, 1>>, <<3, 4>>, <<2, 0>>}, {1, 2, 3})
-GrQ(n) == IF n = 3 THEN ConnGraphs(3) ELSE Trees(n)
+GrQ(n) == IF n <= 3 THEN ConnGraphs(n) ELSE {Chain(4), {<<1, 2>>, <<2, 3>>, <<2, 4>>}, {<<1, 2>>, <<1, 3>>, <<3, 4>>}}
 MCInputs == InputsE(MCFFs, GrQ, 1..4)
 ASSUME PrintT(<<"FFS", ToJson(MCFFs)>>)
 =============================================================================
